@@ -19,10 +19,12 @@ EXPLANATION = (
     "function for all 2^320 states and all start rounds 0..255: each label of the unrolled code is a cut point where the "
     "registers rax, rcx, ~rdx, r8, r9 must equal ref_round of the previous cut; the first cut reached must be the one of "
     "round first_round (the jump-table obligation); callee-saved registers are restored, the stack is balanced, and only "
-    "*state is written (assigns)."
+    "*state is written (assigns). The i386 ASSEMBLY ascon_permute (32-bit bit-sliced layout, arguments and locals on the "
+    "stack) is lifted by tools/lift_i386.py and proved the same way: at every round label the even halves (ebx, ecx, ~edx, "
+    "esi, edi) and odd halves (five stack slots) interleave to ref_round of the previous cut."
 )
 ASSUMPTIONS = [
-    "x86-64 assembly: verified through tools/lift_x86_64.py (trusted: its instruction table for movq/xorq/andq/notq/rorq/pushq/popq/cmpq+jge/jmp/ret and the leaq-movslq-addq-jmp* jump-table idiom; System V argument registers, first_round arriving zero-extended in rsi; gas assembling the text it is given; only the Linux/ELF preprocessor variant of prologue/epilogue). The other eleven assembly backends are not covered",
+    "x86-64 assembly: verified through tools/lift_x86_64.py (trusted: its instruction table for movq/xorq/andq/notq/rorq/pushq/popq/cmpq+jge/jmp/ret and the leaq-movslq-addq-jmp* jump-table idiom; System V argument registers, first_round arriving zero-extended in rsi; gas assembling the text it is given; only the Linux/ELF preprocessor variant of prologue/epilogue). i386 assembly: through tools/lift_i386.py (trusted: its table for movl/xorl/andl/notl/rorl/pushl/popl/cmpl+je/jmp/ret, static %esp tracking, cdecl). The other ten assembly backends are not covered",
     "byte operations of the 32-bit bit-sliced backend: init, copy (and, thorough tier, add and overwrite) with symbolic offset/size; overwrite_with_zeroes and the extract family by ENUMERATION of constant (offset, size) pairs - all 861 pairs in the thorough tier, a seed-rotated sample of ~30 in the quick tier - because with symbolic offsets the extract family exhausts the solver and ascon_overwrite_with_zeroes hits the CBMC 6.11 union anomaly (state->S[i] = 0 followed by a read through W[] is reported non-zero for offset 12, size 19, although the same pair passes as constants and natively); add/overwrite of this backend are not in the quick tier",
     "start rounds above 12 are outside the contract (the 32-bit backend forms the pointer RC + 2*first_round, which is only defined up to 12)",
 ]
@@ -67,6 +69,15 @@ def asm_groups(props=("C08",), prefix="c08"):
               lift=("src/core/ascon-asm-x86-64.S", ASM_SIG), timeout=300, functions=["ascon_backend_free (x86-64 assembly, lifted)"],
               expect_classes=["assertion"]),
     ]
+
+
+def i386_groups(props=("C08",), prefix="c08"):
+    """i386 assembly permutation (bit-sliced 32-bit state layout), lifted on every run by tools/lift_i386.py."""
+    return [Group(prefix + ".permute.i386_asm", props, "harness/h_permute_i386.c", "h_permute_i386", [], cfg="C32",
+                  enforce="ascon_permute", defs=["VERIF_ANY_FIRST_ROUND"], contracts=["contracts/c_permute_enforce.h"],
+                  lift=("src/core/ascon-asm-i386.S", ["--fn=ascon_permute:void:ascon_state_t * state,uint8_t first_round"]),
+                  timeout=1800, functions=["ascon_permute (i386 assembly, lifted)"], expect_classes=["postcondition", "assigns", "assertion"],
+                  note="cut points at the 13 round labels; %esp tracked statically; registers ebx, ecx, ~edx, esi, edi + stack slots")]
 
 
 def byteop_groups(cfg, props=("C08",), alias=True):
@@ -118,6 +129,7 @@ def groups(tier):
     for cfg in (["C64", "C32"] if tier == "quick" else ["C64", "C32", "DX"]):
         gs += permute_groups(cfg)
     gs += asm_groups()
+    gs += i386_groups()
     for cfg in (["C64"] if tier == "quick" else ["C64", "DX", "DEF"]):
         gs += byteop_groups(cfg)
     if tier == "thorough":
